@@ -139,12 +139,18 @@ private theorem announce_chain {d c p e m s : Bytes} {ttl el ml al : Nat}
   · simpa using p9
   · simp [rd_length h5, rd_length h6, rd_length h7, rd_length h8, rd_length h9]; omega
 
+/-- The encoder may write the nonce only where the decoder has read one
+    (`decide (version ≥ encPowMinVersion) → pow`): then the re-encoding is a prefix of the span. -/
 theorem parseAnnounce_prefix {d : Bytes} {pow : Bool} {a : Announce} {version : Nat}
-    (h : parseAnnounce d pow = .ok a) (hv : decide (version ≥ encPowMinVersion) = pow) :
+    (h : parseAnnounce d pow = .ok a) (hv : decide (version ≥ encPowMinVersion) = true → pow = true) :
     encodePayload version (.announce a) <+: d := by
   unfold parseAnnounce at h
   cases pow <;> simp only [Bool.false_eq_true, if_false, if_true] at h
-  · split at h
+  · have hv' : decide (version ≥ encPowMinVersion) = false := by
+      cases hd : decide (version ≥ encPowMinVersion)
+      · rfl
+      · exact absurd (hv hd) (by simp)
+    split at h
     · cases h
     · simp only [chk_eq_ok] at h
       obtain ⟨ttl, h1, el, h2, ml, h3, al, h4, h⟩ := h
@@ -153,7 +159,7 @@ theorem parseAnnounce_prefix {d : Bytes} {pow : Bool} {a : Announce} {version : 
       · simp only [chk_eq_ok, Outcome.ok.injEq] at h
         obtain ⟨c, h5, p, h6, e, h7, m, h8, s, h9, rfl⟩ := h
         have := (announce_chain h1 h2 h3 h4 h5 h6 h7 h8 h9).1
-        simpa [encodePayload, hv] using this
+        simpa [encodePayload, hv'] using this
   · split at h
     · cases h
     · simp only [chk_eq_ok] at h
@@ -163,9 +169,10 @@ theorem parseAnnounce_prefix {d : Bytes} {pow : Bool} {a : Announce} {version : 
       · simp only [chk_eq_ok, Outcome.ok.injEq] at h
         obtain ⟨c, h5, p, h6, e, h7, m, h8, s, h9, n, h10, rfl⟩ := h
         obtain ⟨hpre, hlen⟩ := announce_chain h1 h2 h3 h4 h5 h6 h7 h8 h9
-        have := prefix_extend_u64 h10 hpre hlen
-        simpa [encodePayload, hv] using this
-
+        cases hd : decide (version ≥ encPowMinVersion)
+        · simpa [encodePayload, hd] using hpre
+        · have := prefix_extend_u64 h10 hpre hlen
+          simpa [encodePayload, hd] using this
 
 theorem flag_roundtrip {flag : Nat} (h : ¬ flag > 1) : flagByte (flag != 0) = UInt8.ofNat flag := by
   have : flag = 0 ∨ flag = 1 := by omega
@@ -184,7 +191,9 @@ theorem decodePayloadV1_prefix {t : Nat} {d : Bytes} {p : Payload} {version : Na
     obtain ⟨a, ha, rfl⟩ := h
     apply parseAnnounce_prefix ha
     have := hv (by assumption)
-    simp; omega
+    intro hd
+    simp at hd
+    omega
   split at h
   · split at h
     · cases h
@@ -252,8 +261,10 @@ theorem prefix_drop {p q buf : Bytes} (hp : p <+: buf) (hq : q <+: buf.drop p.le
   simp at hq
   exact (List.prefix_append_right_inj p).mpr hq
 
-/-- encoder and decoder agree on the first version whose announce carries the nonce -/
-theorem powVersions_agree : encPowMinVersion = decPowMinVersion := rfl
+/-- the encoder never writes a nonce the decoder would not read: its threshold is not below the
+    decoder's (equal after fixes/C15-announce-nonce-v3.patch; 4 vs 3 before it — the prefix law
+    needs only this inequality, the round trip C15 needs equality) -/
+theorem decPow_le_encPow : decPowMinVersion ≤ encPowMinVersion := by decide
 
 theorem clampVersion_of_supported {v : Nat} (h : isSupportedVersion v = true) : clampVersion v = v := by
   simp [isSupportedVersion, kMinimumMessageVersion, kCurrentMessageVersion] at h
@@ -281,11 +292,11 @@ theorem decode_prefix {buf : Bytes} {m : Msg} (h : decode buf = .ok m) : encode 
         · rename_i hc
           rw [map_eq_ok] at hp
           obtain ⟨a, ha, rfl⟩ := hp
-          exact parseAnnounce_prefix ha (by simp [powVersions_agree]; exact hc.1)
+          exact parseAnnounce_prefix ha (fun _ => rfl)
         · rename_i hc
           apply decodePayloadV1_prefix hp
           intro ht
-          rw [powVersions_agree]
+          have := decPow_le_encPow
           omega
       have := prefix_drop p2 (by simpa using hpay)
       simpa [encode, hcl] using this
